@@ -1599,7 +1599,9 @@ def comparison_dependent(c: Contract, eq) -> str:
     """Does the law or the function body compare quantities?  (Piecewise / relational / Min / Max in the law; an ordering
     comparison, min(), max() or sorted() in the body.)  Such functions depend on the core comparison hook."""
     from sympy.core.relational import Relational
-    if eq.has(sp.Piecewise) or eq.atoms(Relational) or eq.has(sp.Min) or eq.has(sp.Max) or eq.has(sp.Heaviside):
+    sides = (sp.sympify(eq.lhs), sp.sympify(eq.rhs))
+    if any(x.has(sp.Piecewise) or x.atoms(Relational) or x.has(sp.Min) or x.has(sp.Max) or x.has(sp.Heaviside)
+           for x in sides):
         return "law contains Piecewise / relational / Min / Max"
     try:
         import textwrap
@@ -1976,7 +1978,7 @@ def _process_function(mod, fname, fr: FnResult, rng, npoints, demoted, generate,
                                     "replay": {"reproduced": False, "script": None}})
     # ---- functions that depend on comparisons of quantities: magnitudes across femto .. tera, law on plain SI numbers
     why = comparison_dependent(c, eq)
-    if why:
+    if why and fr.klass != "refuted":  # a function already refuted symbolically has its finding there
         n = 2 * len(WIDE_SCALES) * wide_rounds
         try:
             w = bounded_function(c, law_attr, eq, assoc, rng, n, wide=True)
